@@ -31,7 +31,23 @@ EXTRA = 1  # an over-spent node is extended by one more level (must stay rejecte
 SCALES = ("3/10", "1/100000000000", "12345678901/100000000000")
 
 
-def deviations(hist: History, max_dev: int) -> List[Tuple[History, Dict[str, Any], str]]:
+TZ_DEVS = (540, -300, -480)
+# the asset computed before the one under test in the 'shared engine' phase: same spreadsheet rows, other prices and times
+PRELUDE = ((H.B(3, 1), "="), (H.B(1, 2), "d"), (H.E(2, 1), "d"), (H.S(2), "d"))
+
+
+def deviations(hist: History, max_dev: Any) -> List[Tuple[History, Dict[str, Any], str]]:
+    if max_dev == "tz":
+        # one transaction written in another UTC offset, steps of one hour: wall-clock order contradicts the order of the instants
+        out = []
+        stepped = tuple((it[0], "h" if it[1] == "d" else it[1]) for it in hist)
+        for i in range(len(hist)):
+            for tz in TZ_DEVS:
+                out.append((tuple((it[0], it[1], tz if j == i else 0) for j, it in enumerate(stepped)), {"scale": 1}, f"tz:{tz}@{i}"))
+        return out
+    if max_dev == "prelude":
+        prelude = H.materialize(PRELUDE)
+        return [(hist, {"scale": 1, "prelude": prelude}, "another asset computed first with the same engine")]
     return [(hist, {"scale": sc}, f"scale:{sc}") for sc in SCALES]
 
 
@@ -101,12 +117,16 @@ def plan(tier: str) -> List[Dict[str, Any]]:
             {"name": "two-year schedules", "schedules": two, "steps": ("=", "d", "y"), "depth": 3, "dev": 0, "group": 4},
             {"name": "amount scales", "schedules": singles, "steps": ("=", "d"), "depth": 3, "dev": 1, "group": 2, "from_depth": 2},
             {"name": "sheet order reversed", "schedules": singles, "steps": ("=", "d"), "depth": 3, "dev": 0, "group": 4, "row_order": "reverse"},
+            {"name": "one transaction in another UTC offset", "schedules": singles, "steps": ("=", "d"), "depth": 3, "dev": "tz", "group": 2, "from_depth": 2},
+            {"name": "another asset computed first with the same engine", "schedules": singles, "steps": ("=", "d"), "depth": 3, "dev": "prelude", "group": 2, "from_depth": 2},
         ]
     return [
         {"name": "single methods", "schedules": singles, "steps": ("=", "d"), "depth": 5, "dev": 0, "group": 1},
         {"name": "two-year schedules", "schedules": two, "steps": ("=", "d", "y"), "depth": 4, "dev": 0, "group": 2},
         {"name": "amount scales", "schedules": singles, "steps": ("=", "d"), "depth": 4, "dev": 1, "group": 1, "from_depth": 2},
         {"name": "sheet order reversed", "schedules": singles, "steps": ("=", "d"), "depth": 4, "dev": 0, "group": 4, "row_order": "reverse"},
+        {"name": "one transaction in another UTC offset", "schedules": singles, "steps": ("=", "d"), "depth": 4, "dev": "tz", "group": 1, "from_depth": 2},
+        {"name": "another asset computed first with the same engine", "schedules": singles + two[:4], "steps": ("=", "d"), "depth": 4, "dev": "prelude", "group": 2, "from_depth": 2},
     ]
 
 
